@@ -293,7 +293,9 @@ Proof.
   { pose proof (layout_tags post (offh + length (pad4 dh))) as T. rewrite Epost in T. exact T. }
   assert (Fh: find_entry head_tag es = Some h).
   { apply find_entry_skip; [rewrite Tpre; exact NHpre|reflexivity]. }
-  rewrite Fh in Hw. apply Ok_inj in Hw. rename Hw into Hfile.
+  rewrite Fh in Hw.
+  replace (e_len h <? 12)%nat with false in Hw by (symmetry; apply Nat.ltb_ge; unfold h; cbn [e_len]; exact Hlen).
+  apply Ok_inj in Hw. rename Hw into Hfile.
   (* lengths / alignment *)
   assert (Les: length es = length (pre ++ (head_tag, dh) :: post)).
   { unfold es. rewrite !app_length. cbn [length].
